@@ -50,6 +50,19 @@ Case kinds
                  re-read from its DS string (what decoding yields), Floating Point Value inconsistent with Numeric
                  Value (the exact attribute wins), Floating Point Value added to an integer; tree rendered item by
                  item with both attributes (model: run_tree_accessors), oracle from the attribute definitions of PS3.3
+  acc_geom     : REGION GEOMETRY: the regions (ImageRegion, ImageRegion3D, the items of a VolumeSurface) carry random
+                 coordinates instead of one fixed array per graphic type, handed to the constructors as ndarrays of
+                 every MEMORY LAYOUT (C order, Fortran order, transposed view, column / row slices of wider C- and
+                 F-ordered arrays, planes of 3-D blocks, negative strides, non-native byte order, read-only) and dtype
+                 (float64 / float32 / big-endian float64 / signed and unsigned ints); a volume surface gets its items as
+                 list / tuple / one 2-D array / one stacked 3-D block (C or F order); pixel origin interpretation and
+                 frame of reference vary.  x the history of the report (memory, from_sequence, from_dataset, file, two
+                 files, dcmwrite/dcmread explicit / implicit VR, JSON).  Observed per returned group: every accessor as
+                 in `acc` AND, per coordinate-bearing reference item of roi, the stored GraphicData and the array `value`
+                 / VolumeSurface.graphic_data return, exactly (key of each double).  Model: run_accessors_geom (the
+                 LOGICAL arrays; coordinates of encoded histories rounded to binary32 = VR FL of Graphic Data, table passed by
+                 the harness); the memory layout / dtype of the ndarray is outside the model (its input is the logical
+                 array) - that dimension is judged by the oracle and by the model comparison on the logical array
 In every kind a code returned by an accessor is numbered by what it compares EQUAL to (both operand orders,
 Code and CodedConcept) among the variants of its code value, not only by its attributes (code_id).
 """
@@ -80,6 +93,9 @@ ORACLE_PREMISES = [
     'its decimal string of at most 16 characters says (`trunc`, a parameter of the theorems); the correspondence run '
     'passes the strings pydicom writes (DS(x, auto_format=True) for floats, the digits of an int that fits) as a table; '
     'measurement values are abstract integers, injective keys of the doubles (vkey)',
+    'Graphic Data (0070,0022) of SCOORD and SCOORD3D items has VR FL: after DICOM encoding each coordinate is the nearest '
+    'binary32 number (`trunc` of the geometry theorems, passed as a table by the harness); the JSON model is exact; '
+    'numpy ndarray.flatten() / tolist() / reshape enumerate the LOGICAL array whatever its memory layout (the model input)',
 ]
 MODELLED = ('sr/utils.find_content_items (non-recursive); sr/templates._count_roi_items, _contains_planar_rois, '
             '_contains_volumetric_rois, _get_roi_reference_items, _contains_code/uidref/image_items, '
@@ -93,10 +109,12 @@ MODELLED = ('sr/utils.find_content_items (non-recursive); sr/templates._count_ro
             'damaged trees and on the shipped documents (run_tree_accessors); the argument checks of '
             'PlanarROI... / VolumetricROIMeasurementsAndQualitativeEvaluations.__init__, '
             '_ROIMeasurementsAndQualitativeEvaluations.__init__, content.py ReferencedSegment.__init__ / '
-            'VolumeSurface.__init__ (sources, number of graphic data items per graphic type) (run_construct_*)')
+            'VolumeSurface.__init__ (sources, number of graphic data items per graphic type) (run_construct_*); '
+            'value_types.ScoordContentItem / Scoord3DContentItem: GraphicData = row-major flattening of the logical array, '
+            'value = reshape(-1, d) (run_accessors_geom; shape checks, coplanarity and the ndarray memory layout not modelled)')
 STRATA = ['report_mem', 'report_doc', 'report_file', 'report_notid', 'acc', 'refuse', 'tree', 'fixture',
           'report_codes', 'acc_codes', 'acc_tree', 'acc_fixture', 'report_opts', 'acc_opts', 'construct',
-          'acc_values', 'acc_num_tree']
+          'acc_values', 'acc_num_tree', 'acc_geom']
 RULE = ('reports of 0..5 groups (planar: 2D region of each graphic type, 3D region, segmentation frame, region in '
         'space; volumetric: 1..3 regions, segment with image/series sources, volume surface, region in space; '
         'image groups), values from small pools so that collisions between groups happen; per report 10 sampled '
@@ -119,7 +137,10 @@ RULE = ('reports of 0..5 groups (planar: 2D region of each graphic type, 3D regi
         'floats that fit a DS string, floats that do not: classics such as 1/3 and random doubles of exponent -60..70, '
         'subnormal / largest doubles), observed exactly, x 8 histories (memory, from_sequence, from_dataset, file, two files, '
         'dcmwrite/dcmread explicit / implicit VR, to_json/from_json); acc_num_tree: 1..4 rewritings of the two number attributes of NUM items '
-        '(drop / restring / inconsistent / added Floating Point Value) in memory. '
+        '(drop / restring / inconsistent / added Floating Point Value) in memory; '
+        'acc_geom: 1..4 groups biased to coordinate-bearing references, every region with random coordinates (dyadic, '
+        'some not representable in binary32, ints) of the row count its graphic type asks for (3D polygons closed and '
+        'coplanar), as ndarray in one of 13 memory layouts x 6 dtypes, surfaces packed 5 ways, x 8 histories. '
         'non-trivial = at least two groups and a non-empty, non-total answer or a refusal; distinct by case hash')
 NOT_EXECUTED = []
 EXHAUSTIVE = {'quick': False, 'thorough': False}
@@ -565,6 +586,7 @@ def gen_cases(rng, tier):
     cases += _gen_opts_cases(rng, tier)
     cases += _gen_construct_cases(rng, tier)
     cases += _gen_value_cases(rng, tier)
+    cases += _gen_geom_cases(rng, tier)
     return cases
 
 
@@ -605,6 +627,168 @@ def _values_group(rng, g, pool):
     g = dict(g)
     g['meas'] = [[rng.randint(140, 143), rng.choice(pool)] for _ in range(rng.choice([1, 2, 3, 4]))]
     return g
+
+
+# ---- region geometry ---------------------------------------------------------------------------------------------
+FOR_UIDS = {1: '1.2.826.0.1.3680043.8.498.4.1', 2: '1.2.826.0.1.3680043.8.498.4.2'}
+GEO_LAYOUTS = ['c', 'c', 'f', 'f', 'f', 't', 't', 'colslice', 'colslice_f', 'rowstep', 'rowstep_f', 'rev', 'revcols',
+               'plane', 'plane_f', 'swap', 'readonly_f']
+GEO_DTYPES = ['f8'] * 11 + ['f4'] * 3 + ['>f8', '>f8', 'i8', 'i8', 'i4', 'u2']
+POI = {None: 0, 'VOLUME': 1, 'FRAME': 2}
+
+
+def _geo_array(sp):
+    """the ndarray handed to the constructor: the LOGICAL n x d array sp['pts'] of dtype sp['dtype'] in memory layout
+    sp['layout'] (all layouts compare equal, element for element, to the C-ordered literal)"""
+    import numpy as np
+    A = np.array(sp['pts'], dtype=np.dtype(sp['dtype']))
+    n, d = A.shape
+    lay = sp['layout']
+    if lay == 'c':
+        B = A
+    elif lay == 'f':                    # Fortran (column-major) order
+        B = np.asfortranarray(A)
+    elif lay == 't':                    # transposed view of a C-ordered d x n array (np.array([cols, rows]).T)
+        B = np.ascontiguousarray(A.T).T
+    elif lay in ('colslice', 'colslice_f'):     # d columns of a wider array
+        W = np.zeros((n, d + 3), A.dtype, order='F' if lay.endswith('_f') else 'C')
+        W[:, 1:1 + d] = A
+        B = W[:, 1:1 + d]
+    elif lay in ('rowstep', 'rowstep_f'):       # every second row of a taller array
+        W = np.zeros((2 * n, d), A.dtype, order='F' if lay.endswith('_f') else 'C')
+        W[::2] = A
+        B = W[::2]
+    elif lay == 'rev':                  # negative row stride
+        B = np.ascontiguousarray(A[::-1])[::-1]
+    elif lay == 'revcols':              # negative column stride
+        B = np.ascontiguousarray(A[:, ::-1])[:, ::-1]
+    elif lay == 'plane':                # a plane of a C-ordered 3-D block
+        W = np.zeros((n, d, 3), A.dtype)
+        W[:, :, 1] = A
+        B = W[:, :, 1]
+    elif lay == 'plane_f':              # a plane of an F-ordered 3-D block
+        W = np.zeros((3, n, d), A.dtype, order='F')
+        W[1] = A
+        B = W[1]
+    elif lay == 'swap':                 # non-native byte order
+        B = A.byteswap().view(A.dtype.newbyteorder())
+    elif lay == 'readonly_f':
+        B = np.asfortranarray(A)
+        B.setflags(write=False)
+    else:
+        raise ValueError(lay)
+    assert B.shape == A.shape and np.array_equal(B, A), lay
+    return B
+
+
+def _geo_vals(sp):
+    """the numbers of the logical array as the dtype holds them (rows of Python floats)"""
+    import numpy as np
+    ty = np.dtype(sp['dtype']).type
+    return [[float(ty(x)) for x in row] for row in sp['pts']]
+
+
+def _coord(rng, dt, lo=0):
+    if dt[-2] in 'iu':
+        return rng.randint(lo if dt[-2] == 'u' else -20, 4000)
+    if dt.endswith('f8') and rng.random() < 0.15:       # not representable in binary32
+        return rng.choice([0.1, 1.0 / 3.0, 1234.5678, 200.0 / 3.0, 1e-3, 65536.7, round(rng.uniform(0.0, 4000.0), 3)])
+    return rng.randint(-40, 16000) / 8.0
+
+
+def _geo_item(rng, d, gt, surface=False):
+    """one coordinate array valid for the graphic type: 2D gt 1 POINT 3 POLYLINE 4 CIRCLE 5 ELLIPSE; 3D gt 1 POINT
+    3 POLYLINE 4 POLYGON (closed, coplanar) 5 ELLIPSE (coplanar) 6 ELLIPSOID"""
+    dt = rng.choice(GEO_DTYPES)
+    if d == 2:
+        n = {1: 1, 3: rng.choice([2, 3, 3, 4, 5, 6]), 4: 2, 5: 4}[gt]
+    else:
+        n = {1: 1, 3: rng.choice([2, 3, 4, 5]), 4: rng.choice([4, 5, 6]), 5: 4, 6: 6}[gt]
+    pts = [[_coord(rng, dt) for _ in range(d)] for _ in range(n)]
+    if d == 3 and gt in (4, 5):         # one axis constant: coplanar whatever the other coordinates
+        ax, v = rng.randrange(3), _coord(rng, dt)
+        for r in pts:
+            r[ax] = v
+        if gt == 4:
+            pts[-1] = list(pts[0])
+    return {'d': d, 'pts': pts, 'dtype': dt, 'layout': rng.choice(GEO_LAYOUTS)}
+
+
+def _geo_for_group(rng, g):
+    """geometry of every coordinate-bearing reference item of the group (document order)"""
+    r = g['ref']
+    t = r[0]
+    g = dict(g)
+    poi = lambda c: rng.choice([None, None, 'VOLUME', 'FRAME'])  # noqa: E731
+    if t == 'r2':
+        g['geo'] = [dict(_geo_item(rng, 2, r[1]), poi=poi(r[2]))]
+    elif t == 'r3':
+        g['geo'] = [dict(_geo_item(rng, 3, r[1]), **{'for': rng.choice([1, 2])})]
+    elif t == 'rs':
+        g['geo'] = [dict(_geo_item(rng, 2, x[0]), poi=poi(x[1])) for x in r[1]]
+    elif t == 'surf':
+        f = rng.choice([1, 2])
+        items = [dict(_geo_item(rng, 3, r[1]), **{'for': f}) for _ in range(r[2])]
+        packs = ['list', 'list', 'tuple']
+        if r[2] == 1:
+            packs += ['single', 'single']
+        same = len({(len(x['pts']), x['dtype']) for x in items}) == 1
+        if not same and rng.random() < 0.5:       # make the items stackable: same row count and dtype
+            n0, dt0 = len(items[0]['pts']), items[0]['dtype']
+            for x in items[1:]:
+                if len(x['pts']) != n0 and r[1] == 4:
+                    continue
+                x['dtype'] = dt0
+                x['pts'] = [[(abs(int(v)) % 4001 if dt0[-2] in 'iu' else float(v)) for v in row] for row in x['pts']]
+            same = len({(len(x['pts']), x['dtype']) for x in items}) == 1
+        if same:
+            packs += ['stack', 'stack_f', 'stack_f']
+        g['geo'], g['geo_pack'] = items, rng.choice(packs)
+    else:
+        g['geo'] = []
+    return g
+
+
+def _geom_ref(rng, k):
+    """references biased to the coordinate-bearing kinds"""
+    if k == 'P':
+        t = rng.choice(['r2', 'r2', 'r2', 'r2', 'r3', 'r3', 'sf'])
+        if t == 'r2':
+            return ['r2', rng.choice([1, 3, 3, 4, 5])] + _src(rng)
+        if t == 'r3':
+            return ['r3', rng.choice([1, 3, 4, 5])]
+        return ['sf'] + _src(rng, SEG_INST) + _src(rng)
+    if k == 'V':
+        t = rng.choice(['rs', 'rs', 'rs', 'surf', 'surf', 'seg'])
+        if t == 'rs':
+            gt = rng.choice([3, 3, 4, 5, 1])
+            mixed = rng.random() < 0.25
+            return ['rs', [[rng.choice([1, 3, 4, 5]) if mixed else gt] + _src(rng) for _ in range(rng.choice([2, 2, 3]))]]
+        if t == 'surf':
+            gt = rng.choice([1, 4, 5, 6])
+            return ['surf', gt, 1 if gt in (1, 6) else rng.randint(2, 3), _sources(rng)]
+        return ['seg'] + _src(rng, SEG_INST) + [_sources(rng)]
+    return ['src', [_src(rng) for _ in range(rng.choice([0, 1, 2]))]]
+
+
+def _gen_geom_cases(rng, tier):
+    n = {'quick': 40, 'thorough': 400, 'search': 80}[tier]
+    hist = ['mem', 'parsed', 'doc', 'file', 'mem', 'file2', 'dcm', 'dcm_implicit', 'json', 'file']
+    cases = []
+    for j in range(n):
+        ng = rng.choice([1, 2, 3, 4])
+        notid = rng.choice([0.0, 0.0, 1.0])
+        groups = []
+        for i in range(ng):
+            g = _group(rng, i, k=rng.choice(['P', 'P', 'V', 'V', 'I']), notid=notid, allow_ris=False)
+            g['ref'] = _geom_ref(rng, g['k'])
+            g['meas'] = g['meas'][:2]
+            groups.append(_geo_for_group(rng, g))
+        allnames = [m[0] for g in groups for m in g['meas']]
+        cases.append({'kind': 'acc_geom', 'groups': groups, 'io': hist[j % len(hist)],
+                      'pre': rng.choice(['person', 'device']), 'hd_codes': rng.random() < 0.5,
+                      'mname': rng.choice(allnames + [149]) if rng.random() < 0.5 else None, 'ename': None})
+    return cases
 
 
 NUM_MUTS = ['drop_fd', 'restring', 'restring_drop_fd', 'restring_drop_fd', 'fd_other', 'fd_other', 'add_fd']
@@ -1160,7 +1344,15 @@ def _build_group(g, hd_codes):
         r = ['r2', 1, 0, 1] if g['k'] == 'P' else ['rs', [[1, 0, 1]]]
         t = r[0]
 
-    def region(gt, c, i):
+    geo = g.get('geo') or None          # acc_geom: the coordinates (and memory layout) of every region
+
+    def region(gt, c, i, k=0):
+        if geo:
+            sp = geo[k]
+            fr = {'referenced_frame_numbers': [1]} if sp.get('poi') == 'FRAME' else {}
+            return sr.ImageRegion(graphic_type=G2[gt], graphic_data=_geo_array(sp),
+                                  source_image=sr.SourceImageForRegion(CLASSES[c], inst_str(i), **fr),
+                                  pixel_origin_interpretation=sp.get('poi'))
         return sr.ImageRegion(graphic_type=G2[gt], graphic_data=_gdata2(gt),
                               source_image=sr.SourceImageForRegion(CLASSES[c], inst_str(i)))
     if g['k'] != 'I':
@@ -1169,8 +1361,9 @@ def _build_group(g, hd_codes):
         if t == 'r2':
             kw['referenced_region'] = region(r[1], r[2], r[3])
         elif t == 'r3':
-            kw['referenced_region'] = sr.ImageRegion3D(graphic_type=G3[r[1]], graphic_data=_gdata3(r[1]),
-                                                       frame_of_reference_uid=FOR_UID)
+            kw['referenced_region'] = sr.ImageRegion3D(
+                graphic_type=G3[r[1]], graphic_data=_geo_array(geo[0]) if geo else _gdata3(r[1]),
+                frame_of_reference_uid=FOR_UIDS[geo[0]['for']] if geo else FOR_UID)
         elif t == 'sf':
             kw['referenced_segment'] = sr.ReferencedSegmentationFrame(
                 sop_class_uid=CLASSES[r[1]], sop_instance_uid=inst_str(r[2]), frame_number=1, segment_number=1,
@@ -1180,14 +1373,21 @@ def _build_group(g, hd_codes):
         obj = sr.PlanarROIMeasurementsAndQualitativeEvaluations(**kw)
     elif g['k'] == 'V':
         if t == 'rs':
-            kw['referenced_regions'] = [region(*x) for x in r[1]]
+            kw['referenced_regions'] = [region(*x, k=k) for k, x in enumerate(r[1])]
         elif t == 'seg':
             kw['referenced_segment'] = sr.ReferencedSegment(
                 sop_class_uid=CLASSES[r[1]], sop_instance_uid=inst_str(r[2]), segment_number=1, **_mk_sources(r[3]))
         elif t == 'surf':
             gd = [_gdata3(r[1]) for _ in range(r[2])]
+            if geo:
+                import numpy as np
+                gd = [_geo_array(sp) for sp in geo]
+                pack = g.get('geo_pack', 'list')
+                gd = {'list': lambda: gd, 'tuple': lambda: tuple(gd), 'single': lambda: gd[0],
+                      'stack': lambda: np.stack(gd), 'stack_f': lambda: np.asfortranarray(np.stack(gd))}[pack]()
             kw['referenced_volume_surface'] = sr.VolumeSurface(
-                graphic_type=G3[r[1]], graphic_data=gd, frame_of_reference_uid=FOR_UID, **_mk_sources(r[3]))
+                graphic_type=G3[r[1]], graphic_data=gd,
+                frame_of_reference_uid=FOR_UIDS[geo[0]['for']] if geo else FOR_UID, **_mk_sources(r[3]))
         else:
             raise ValueError(r)
         obj = sr.VolumetricROIMeasurementsAndQualitativeEvaluations(**kw)
@@ -1594,6 +1794,45 @@ def _accessors(g, K, mname, ename, hd_codes, srt=False, alt=False):
     return out
 
 
+def _geom_obs(g, K):
+    """region geometry a returned group reports: per coordinate-bearing reference item of roi
+    [dimension, Pixel Origin Interpretation code (2D) / frame of reference number (3D), stored GraphicData,
+    the rows of the array `value` (for a volume surface: VolumeSurface.graphic_data) returns] - every number exactly"""
+    import numpy as np
+    from highdicom.sr import ImageRegion, VolumeSurface
+
+    def aux(it, d):
+        if d == 2:
+            return POI.get(it.get('PixelOriginInterpretation'), -1)
+        u = str(it.frame_of_reference_uid)
+        return next((k for k, v in FOR_UIDS.items() if v == u), -1)
+
+    def rows(v):
+        v = np.asarray(v)
+        if v.ndim != 2:
+            return ['not a 2-dimensional array', list(v.shape)]
+        return [[vkey(x) for x in row] for row in v.tolist()]
+
+    def item(it, d, value=None):
+        return [d, aux(it, d), [vkey(float(x)) for x in it.GraphicData], rows(it.value if value is None else value)]
+    if K == 'I':
+        return []
+    r = g.roi
+    if r is None:
+        return []
+    if K == 'P':
+        return [item(r, 2 if isinstance(r, ImageRegion) else 3)]
+    if isinstance(r, VolumeSurface):
+        gd = r.graphic_data
+        if isinstance(gd, np.ndarray):      # one array for a single-item surface (POINT / ELLIPSOID)
+            gd = [gd]
+        items = r._graphic_data_items
+        if len(gd) != len(items):
+            return ['graphic_data has', len(gd), 'arrays for', len(items), 'items']
+        return [item(it, 3, v) for it, v in zip(items, gd)]
+    return [item(x, 2) for x in r]
+
+
 class _AlphaIds:
     """numbering of the generated alphabets (no foreign values)"""
 
@@ -1750,6 +1989,13 @@ def run_impl(c):
                       ('I', rep.get_image_measurement_groups)):
             out.append(catch(lambda: [_accessors(g, K, c['mname'], c['ename'], fo['hd'], fo['srt'], fo['alt'])
                                       for g in fn()]))
+        return out
+    if k == 'acc_geom':
+        out = []
+        for K, fn in (('P', rep.get_planar_roi_measurement_groups), ('V', rep.get_volumetric_roi_measurement_groups),
+                      ('I', rep.get_image_measurement_groups)):
+            out.append(catch(lambda: [[_accessors(g, K, c['mname'], c['ename'], fo['hd'], fo['srt'], fo['alt']),
+                                       _geom_obs(g, K)] for g in fn()]))
         return out
     return [[_query(rep, K, f, fo['hd'], fo['srt'], fo['alt']) for K in 'PVI'] for f in c['filters']]
 
@@ -1923,6 +2169,21 @@ def coq_term(c):
     pre = PRE_ITEMS if c.get('pre') == 'library' else '[]'
     if k in ('acc', 'acc_codes'):
         return f"(run_accessors {pre} {gs} {ocz(c['mname'])} {ocz(c['ename'])})"
+    if k == 'acc_geom':
+        enc = c['io'] in ENCODING_IO
+        tbl = set()
+        ggs = []
+        for g in c['groups']:
+            its = []
+            for j, sp in enumerate(g.get('geo') or []):
+                vals = _geo_vals(sp)
+                if enc:
+                    tbl |= {(vkey(x), vkey(_f32(x))) for row in vals for x in row if _f32(x) != x}
+                rows = '; '.join('[' + '; '.join(zlit(vkey(x)) for x in row) + ']' for row in vals)
+                its.append(f"GI {sp['d']}%nat {zlit(_geo_aux(g, j))} [{rows}]")
+            ggs.append(f"({_coq_group(g)}, [{'; '.join(its)}])")
+        return (f"(run_accessors_geom [{'; '.join(f'({zlit(a)}, {zlit(b)})' for a, b in sorted(tbl))}] {pre} "
+                f"[{'; '.join(ggs)}] {ocz(c['mname'])} {ocz(c['ename'])})")
     if k == 'acc_values':
         vals = [v for g in c['groups'] for _, v in g['meas']]
         floats = sorted({_vk(v) for v in vals if _writes_fp(v)})     # values for which Floating Point Value is written
@@ -2177,6 +2438,68 @@ def _check_acc(c, out):
     return None
 
 
+def _f32(x):
+    """the binary32 number nearest to x (what VR FL keeps), as a Python float"""
+    import struct
+    return struct.unpack('<f', struct.pack('<f', x))[0]
+
+
+def _geo_aux(g, j):
+    """what is stored next to the coordinates of the j-th region: 2D the Pixel Origin Interpretation (as given, else
+    VOLUME for a whole-slide image - the documented default - else absent), 3D the frame of reference"""
+    sp = g['geo'][j]
+    if sp['d'] == 3:
+        return sp['for']
+    r = g['ref']
+    cls = r[2] if r[0] == 'r2' else r[1][j][1]
+    return POI[sp.get('poi') or ('VOLUME' if cls == 2 else None)]
+
+
+def _check_geom(c, out):
+    """every returned group reports what it was constructed with (as `acc`) AND, region by region, the coordinates it
+    was constructed with: GraphicData = the (column, row) pairs / (x, y, z) triplets one after the other, value = the
+    n x d array, whatever the memory layout and dtype of the ndarray handed to the constructor; after DICOM
+    encoding every coordinate is the nearest binary32 number (Graphic Data has VR FL in SCOORD and SCOORD3D), JSON is exact"""
+    for K, rows in zip('PVI', out):
+        if isinstance(rows, Err):
+            return f'unfiltered {K} query (or an accessor of a returned group) raised {rows}'
+    msg = _check_acc(c, [[a[0] for a in rows] for rows in out])
+    if msg:
+        return msg
+    by_id = {g['tid']: g for g in c['groups']}
+    enc = c['io'] in ENCODING_IO
+    for K, rows in zip('PVI', out):
+        for a, geo in rows:
+            g = by_id[a[1]]
+            want = []
+            for j, sp in enumerate(g.get('geo') or []):
+                vals = _geo_vals(sp)
+                if enc:
+                    vals = [[_f32(x) for x in row] for row in vals]
+                want.append([sp['d'], _geo_aux(g, j), [vkey(x) for row in vals for x in row],
+                             [[vkey(x) for x in row] for row in vals]])
+            if geo == want:
+                continue
+            where = f'group {a[1]} (history of the report: {c["io"]})'
+            if len(geo) != len(want) or any(not isinstance(x, list) or len(x) != 4 for x in geo):
+                return f'{where}: roi reports {len(geo)} coordinate arrays {geo}, constructed with {len(want)}'
+            for j, (x, w) in enumerate(zip(geo, want)):
+                if x == w:
+                    continue
+                sp = g['geo'][j]
+                how = (f"region {j} (ndarray layout '{sp['layout']}', dtype {sp['dtype']}"
+                       f"{', surface given as ' + g['geo_pack'] if 'geo_pack' in g else ''})")
+                un = lambda rows: [[unkey(v) for v in r] for r in rows] if all(isinstance(r, list) for r in rows) else rows  # noqa: E731
+                if x[3] != w[3]:
+                    return (f'{where}: {how} reports coordinates {un(x[3])} but was constructed with {un(w[3])}')
+                if x[2] != w[2]:
+                    return (f'{where}: {how} stores GraphicData {[unkey(v) for v in x[2]]}, the coordinates it was '
+                            f'constructed with are {[unkey(v) for v in w[2]]}')
+                return (f'{where}: {how} reports dimension / pixel origin interpretation or frame of reference '
+                        f'{x[:2]}, constructed with {w[:2]}')
+    return None
+
+
 def _touched(c):
     """indices of the groups a mutation was applied to (the index is taken modulo the CURRENT number of items of
     the Imaging Measurements container, which add_empty_container increases)"""
@@ -2254,6 +2577,8 @@ def oracle(c, out):
         return _check_acc(c, out)
     if k == 'acc_num_tree':
         return _check_num_tree(c, out)
+    if k == 'acc_geom':
+        return _check_geom(c, out)
     if k == 'fixture':
         # unfiltered queries partition the measurement groups of the shipped documents
         row = out[0]
@@ -2306,6 +2631,8 @@ def nontrivial(c, out):
         return len(c['groups']) >= 2
     if k == 'acc_values':     # some value does not survive as a DS string and the report was encoded
         return c['io'] in ENCODING_IO and any(float(_ds_str(v)) != float(_pv(v)) for g in c['groups'] for _, v in g['meas'])
+    if k == 'acc_geom':       # some region of two or more points came in an array that is not C-ordered
+        return any(len(sp['pts']) >= 2 and sp['layout'] != 'c' for g in c['groups'] for sp in g.get('geo') or [])
     if k == 'acc_num_tree':   # some measurement has two different sources
         return any(fd is not None and fd != nv for grp in _num_shadow(c) for nv, fd, _ in grp)
     if k == 'acc_tree':        # some group is returned and some accessor raises or some group is seen by no query
@@ -2340,6 +2667,15 @@ def shrink(c):
         if c.get('io') != 'mem':
             yield dict(c, io='mem')
         return
+    if c.get('kind') == 'acc_geom':     # plainer arrays first (a failure that needs the layout keeps it)
+        for i, g in enumerate(c['groups']):
+            for j, sp in enumerate(g.get('geo') or []):
+                for key, plain in (('layout', 'c'), ('dtype', 'f8'), ('poi', None)):
+                    if key in sp and sp[key] != plain and not (key == 'dtype' and sp['dtype'][-2] in 'iu'):
+                        geo2 = g['geo'][:j] + [dict(sp, **{key: plain})] + g['geo'][j + 1:]
+                        yield dict(c, groups=c['groups'][:i] + [dict(g, geo=geo2)] + c['groups'][i + 1:])
+            if g.get('geo_pack', 'list') != 'list':
+                yield dict(c, groups=c['groups'][:i] + [dict(g, geo_pack='list')] + c['groups'][i + 1:])
     if c.get('kind') == 'acc_values':
         for i, g in enumerate(c['groups']):
             if len(g['meas']) > 1:
